@@ -719,3 +719,64 @@ Definition compile (cx : context) (bounded_else : bool) (fuel : nat) (src : sour
   | ROk items => match collect items with Some c => compile_collected cx bounded_else c | None => CFail end
   | _ => CFail
   end.
+
+(* ------------------------------------------------------------------ *)
+(* 9. Boolean equalities used by the generated correspondence cases    *)
+(* ------------------------------------------------------------------ *)
+Fixpoint xexpr_eqb (a b : xexpr) : bool :=
+  match a, b with
+  | CName n k, CName n' k' => (n =? n') && (k =? k')
+  | CNum m d, CNum m' d' => (m =? m') && Nat.eqb d d'
+  | CBin o x y, CBin o' x' y' => binop_eqb o o' && xexpr_eqb x x' && xexpr_eqb y y'
+  | CNeg x, CNeg x' => xexpr_eqb x x'
+  | CCall f l, CCall f' l' =>
+      String.eqb f f' &&
+      (fix go (l l' : list xexpr) : bool :=
+         match l, l' with
+         | [], [] => true
+         | x :: r, x' :: r' => xexpr_eqb x x' && go r r'
+         | _, _ => false
+         end) l l'
+  | CParen x, CParen x' => xexpr_eqb x x'
+  | CPseudo f x k, CPseudo f' x' k' =>
+      String.eqb f f' && xexpr_eqb x x' &&
+      match k, k' with Some u, Some v => u =? v | None, None => true | _, _ => false end
+  | _, _ => false
+  end.
+
+Fixpoint list_eqb_ {A} (e : A -> A -> bool) (a b : list A) : bool :=
+  match a, b with
+  | [], [] => true
+  | x :: r, y :: s => e x y && list_eqb_ e r s
+  | _, _ => false
+  end.
+
+Definition quantity_eqb (a b : quantity) : bool :=
+  String.eqb (q_name a) (q_name b) && qkind_eqb (q_kind a) (q_kind b) && String.eqb (q_descr a) (q_descr b) &&
+  match q_logly a, q_logly b with Some x, Some y => Bool.eqb x y | None, None => true | _, _ => false end.
+
+Definition cmodel_eqb (a b : cmodel) : bool :=
+  list_eqb_ quantity_eqb (m_quantities a) (m_quantities b) &&
+  list_eqb_ xexpr_eqb (m_dynamic a) (m_dynamic b) &&
+  list_eqb_ xexpr_eqb (m_steady a) (m_steady b) &&
+  list_eqb_ String.eqb (m_eq_descr a) (m_eq_descr b).
+
+Definition cres_eqb (a b : cres) : bool :=
+  match a, b with
+  | COk x, COk y => cmodel_eqb x y
+  | CFail, CFail => true
+  | _, _ => false
+  end.
+
+(* which component differs (for the harness's diagnostics): 0 = none, 1 = quantities, 2 = dynamic, 3 = steady,
+   4 = descriptions, 5 = one side failed *)
+Definition cres_diff (a b : cres) : nat :=
+  match a, b with
+  | COk x, COk y =>
+      if negb (list_eqb_ quantity_eqb (m_quantities x) (m_quantities y)) then 1
+      else if negb (list_eqb_ xexpr_eqb (m_dynamic x) (m_dynamic y)) then 2
+      else if negb (list_eqb_ xexpr_eqb (m_steady x) (m_steady y)) then 3
+      else if negb (list_eqb_ String.eqb (m_eq_descr x) (m_eq_descr y)) then 4 else 0
+  | CFail, CFail => 0
+  | _, _ => 5
+  end%nat.
